@@ -867,6 +867,11 @@ func genC11(r *rand.Rand, t *Trace, thorough bool) {
 			updatePhase(5, n, nContend/5, t)
 			updatePhase(6, n, nContend/5, t)
 		}
+		for i := 0; i < 4; i++ {
+			// an add that has passed the closed check is overtaken by a complete Close (C17's schedule): no panic
+			storeCaseCounter++
+			addAcrossClose(r, filepath.Join(work, "stores", fmt.Sprintf("xa%d_%d", os.Getpid(), storeCaseCounter)), t)
+		}
 		for i := 0; i < 6; i++ {
 			storeCaseCounter++
 			closeWhileBusy(r, filepath.Join(work, "stores", fmt.Sprintf("x%d_%d", os.Getpid(), storeCaseCounter)), i%2, t)
